@@ -164,6 +164,37 @@ def run(tier, seed, replay=None):
             jobs.append({"id": len(jobs), "src": new, "opts": opts, "want": ["lex"],
                          "_pid": pid, "_planted": planted, "_name": name,
                          "_rw": bool(opts.get("wrap_comments") or opts.get("normalize_comments"))})
+        # small generated sources (width-boundary sweep + macro-call statements): ONE comment
+        # per run, at every slot, every style
+        gens = universe.boundary_sources() + universe.macro_sources()
+        gsl = ucore.run_jobs([{"id": i, "src": t, "opts": {"disable_all_formatting": True},
+                               "want": ["slots"]} for i, (n, t) in enumerate(gens)], sc, timeout=30)
+        for (gname, gtext), r in zip(gens, gsl):
+            ss = (r.get("slots") or {}).get("slots") or []
+            tb = gtext.encode()
+            for si, sl in enumerate(ss):
+                for sti, st in enumerate(STYLES):
+                    for w in (60, 100):
+                        pid = f"{gname}@w={w}:slot{si}:{st[0]}"
+                        hp = core.fnv(pid.encode())
+                        if tier != "thorough" and hp % 8 != seed % 8 and (si + sti) % 7:
+                            continue
+                        if sl["how"] == "eol" and not st[2] and st[0] != "block":
+                            continue
+                        c = st[1].format(m="cq0x")
+                        if sl["how"] == "eol":
+                            ins = " " + c + "\n"
+                        elif st[2]:
+                            ins = c + "\n"
+                        else:
+                            ins = c + " "
+                        new = (tb[:sl["off"]] + ins.encode() + tb[sl["off"]:]).decode()
+                        se = universe.STYLE_EDITIONS[hp % 3]
+                        jobs.append({"id": len(jobs), "src": new,
+                                     "opts": {"max_width": w, "style_edition": se},
+                                     "want": ["lex"], "_pid": pid, "_name": None, "_rw": False,
+                                     "_planted": [{"m": "cq0x", "cls": sl["cls"], "how": sl["how"],
+                                                   "style": st[0], "text": c}]})
         res = ucore.run_jobs([{k: j[k] for k in j if not k.startswith("_")} for j in jobs], sc,
                              timeout=30)
         recs, meta = [], []
@@ -189,7 +220,7 @@ def run(tier, seed, replay=None):
                             [x for x in MARK.findall(c) if x == p["m"]]]
                     rec["mk"].append({"p": payload(p["text"]), "hits": hits})
                 # the comments the file already carries at in-scope positions
-                orig = slots[j["_name"]]["comments"]
+                orig = slots[j["_name"]]["comments"] if j["_name"] else []
                 a = {}
                 for c in orig:
                     if c.get("cls"):
